@@ -19,6 +19,48 @@ def tagAbsent (n : Nat) : Fields → Bool
   | .cons p _ r => (p.tagNumber != some n) && tagAbsent n r
 
 mutual
+/-- the tag numbers an untagged CHOICE (behind pointers) can show as its outermost header -/
+def tagsOfTy : Ty → List Nat
+  | .ptr t => tagsOfTy t
+  | .choice alts => tagsOfAlts alts
+  | _ => []
+def tagsOfAlts : Fields → List Nat
+  | .nil => []
+  | .cons p t r => (match p.tagNumber with | some n => [n] | none => tagsOfTy t) ++ tagsOfAlts r
+end
+
+mutual
+theorem choiceHasTag_mem : ∀ (t : Ty) (n : Nat), choiceHasTag t n = true → n ∈ tagsOfTy t
+  | .ptr t, n, h => by
+    rw [choiceHasTag] at h; rw [tagsOfTy]; exact choiceHasTag_mem t n h
+  | .choice alts, n, h => by
+    rw [choiceHasTag] at h; rw [tagsOfTy]; exact altsHaveTag_mem alts n h
+  | .wrap _, _, h => by simp [choiceHasTag] at h
+  | .slice _, _, h => by simp [choiceHasTag] at h
+  | .struct _, _, h => by simp [choiceHasTag] at h
+  | .bool, _, h => by simp [choiceHasTag] at h
+  | .int _, _, h => by simp [choiceHasTag] at h
+  | .enum, _, h => by simp [choiceHasTag] at h
+  | .octets, _, h => by simp [choiceHasTag] at h
+  | .bits, _, h => by simp [choiceHasTag] at h
+  | .null, _, h => by simp [choiceHasTag] at h
+  | .oid, _, h => by simp [choiceHasTag] at h
+  | .str _, _, h => by simp [choiceHasTag] at h
+  | .unsupported, _, h => by simp [choiceHasTag] at h
+theorem altsHaveTag_mem : ∀ (fs : Fields) (n : Nat), altsHaveTag fs n = true → n ∈ tagsOfAlts fs
+  | .nil, _, h => by simp [altsHaveTag] at h
+  | .cons p t r, n, h => by
+    rw [altsHaveTag] at h
+    rw [tagsOfAlts]
+    simp only [Bool.or_eq_true] at h
+    rcases h with h | h
+    · cases hp : p.tagNumber with
+      | some m => rw [hp] at h; simp at h; simp [h]
+      | none => rw [hp] at h; simp only at h; simp only [List.mem_append]; left; exact choiceHasTag_mem t n h
+    · simp only [List.mem_append]; right; exact altsHaveTag_mem r n h
+end
+
+mutual
 /-- types the structural round trip covers: SEQUENCE (not SET), SEQUENCE OF, CHOICE with tagged alternatives,
     wrappers of non-CHOICE types, pointers; members keyed, optional members nil-able and not confusable with a later one -/
 def rtTy : Ty → Bool
@@ -36,7 +78,9 @@ def rtFields : Fields → Bool
 def rtAlts : Fields → Bool
   | .nil => true
   | .cons p t r => rtParams p && rtTy t &&
-      (match p.tagNumber with | some n => tagAbsent n r | none => false) && rtAlts r
+      (match p.tagNumber with
+       | some n => !altsHaveTag r n
+       | none => isChoiceTy t && (tagsOfTy t).all (fun n => !altsHaveTag r n)) && rtAlts r
 end
 
 /-- no EXPLICIT unwrapping happens under these parameters -/
@@ -103,11 +147,13 @@ theorem rtParams_nx {q : Params} (h : rtParams q = true) : needsUnwrap_off q := 
   simp [rtParams] at h; exact h.2
 
 theorem finish_tlv_key (q : Params) (t : Ty) (c : Bool) (tag : Nat) (content : Bytes)
-    (he : expectedTag q (underlying t) = some tag) (htag : tag < 9223372036854775808) (hq : rtParams q = true) :
+    (he : expectedTag q (underlying t) = some tag) (htag : tag < 9223372036854775808) (hq : rtParams q = true)
+    (hnc : isChoiceTy t = false) :
     ∃ cls tag' c' content', finish q c tag content = tlv cls c' tag' content' ∧ cls < 4 ∧ tag' < 9223372036854775808 ∧
-      (∀ k, elemKey q t = some k → k = (cls, tag')) := by
+      (∀ k, elemKey q t = some k → k = (cls, tag')) ∧
+      (q.tagNumber = none → isChoiceTy t = true → cls = 2 ∧ choiceHasTag t tag' = true) := by
   obtain ⟨c', content', e⟩ := finish_key q c tag content
-  refine ⟨_, _, c', content', e, ?_, ?_, ?_⟩
+  refine ⟨_, _, c', content', e, ?_, ?_, ?_, ?_⟩
   · cases q.tagNumber <;> simp
   · cases hn : q.tagNumber with
     | none => exact htag
@@ -116,6 +162,7 @@ theorem finish_tlv_key (q : Params) (t : Ty) (c : Bool) (tag : Nat) (content : B
     rw [elemKey_prim q t tag he] at hk
     simp only [Option.some.injEq] at hk
     exact hk.symm
+  · intro _ h; rw [hnc] at h; cases h
 
 /-- the element list of a run of members: every element is the encoding of one of the fields -/
 def keysIn (fs : Fields) (es : List Elem) : Prop :=
@@ -128,7 +175,8 @@ def M1 (t : Ty) (p : Params) (v : Val) : Prop :=
   ∀ q b, core q = core p → rtParams q = true → rtTy t = true → Canon t v → marshal t q v = .ok b → b.length < B62 →
     unmarshal t q b = .ok v ∧
     ∃ cls tag c content, b = tlv cls c tag content ∧ cls < 4 ∧ tag < 9223372036854775808 ∧
-      (∀ k, elemKey q t = some k → k = (cls, tag))
+      (∀ k, elemKey q t = some k → k = (cls, tag)) ∧
+      (q.tagNumber = none → isChoiceTy t = true → cls = 2 ∧ choiceHasTag t tag = true)
 
 def M2 (t : Ty) (p : Params) (vs : Vals) : Prop :=
   ∀ q c, core q = core p → rtParams q = true → rtTy t = true → CanonList t vs → marshalElems t q vs = .ok c → c.length < B62 →
@@ -140,7 +188,7 @@ def M3 (fs : Fields) (vs : Vals) : Prop :=
 
 def M4 (fs : Fields) (vs : Vals) (n : Nat) : Prop :=
   ∀ v all i b, rtAlts fs = true → CanonAlt fs n v → valAt vs n = some v → marshalAlt fs vs n = .ok b → b.length < B62 →
-    ∃ tagn c content, b = tlv 2 c tagn content ∧ tagn < 9223372036854775808 ∧ tagAbsent tagn fs = false ∧
+    ∃ tagn c content, b = tlv 2 c tagn content ∧ tagn < 9223372036854775808 ∧ altsHaveTag fs tagn = true ∧
       content.length < 9223372036854775808 ∧
       decodeAlt all fs i tagn b = .ok (.choice (i + n + 1) (setAt (zeroVals all) (i + n) v))
 
@@ -154,36 +202,36 @@ theorem m1_bits (p : Params) (bs : Bytes) (n : Nat) : M1 .bits p (.bits bs n) :=
   rw [marshal] at hm; simp only [Res.ok.injEq] at hm; subst hm
   cases hcan with | bits h1 h2 =>
   have := finish_len_bound hl
-  exact ⟨rt_bits q bs n (rtParams_tag hq) (by simp at this; omega) h1 h2, finish_tlv_key q .bits false 3 _ rfl (by decide) hq⟩
+  exact ⟨rt_bits q bs n (rtParams_tag hq) (by simp at this; omega) h1 h2, finish_tlv_key q .bits false 3 _ rfl (by decide) hq rfl⟩
 
 theorem m1_octets (p : Params) (bs : Bytes) : M1 .octets p (.bytes bs) := by
   intro q b hc hq ht hcan hm hl
   rw [marshal] at hm; simp only [Res.ok.injEq] at hm; subst hm
   have := finish_len_bound hl
-  exact ⟨rt_octets q bs (rtParams_tag hq) (by omega), finish_tlv_key q .octets false 4 _ rfl (by decide) hq⟩
+  exact ⟨rt_octets q bs (rtParams_tag hq) (by omega), finish_tlv_key q .octets false 4 _ rfl (by decide) hq rfl⟩
 
 theorem m1_enum (p : Params) (i : Int) : M1 .enum p (.int i) := by
   intro q b hc hq ht hcan hm hl
   rw [marshal] at hm; simp only [Res.ok.injEq] at hm; subst hm
   cases hcan with | enum hi =>
-  exact ⟨rt_enum q i hi (rtParams_tag hq), finish_tlv_key q .enum false 10 _ rfl (by decide) hq⟩
+  exact ⟨rt_enum q i hi (rtParams_tag hq), finish_tlv_key q .enum false 10 _ rfl (by decide) hq rfl⟩
 
 theorem m1_null (p : Params) (x : Bool) : M1 .null p (.null x) := by
   intro q b hc hq ht hcan hm hl
   rw [marshal] at hm; simp only [Res.ok.injEq] at hm; subst hm
   cases hcan
-  exact ⟨rt_null q (rtParams_tag hq), finish_tlv_key q .null false 5 _ rfl (by decide) hq⟩
+  exact ⟨rt_null q (rtParams_tag hq), finish_tlv_key q .null false 5 _ rfl (by decide) hq rfl⟩
 
 theorem m1_bool (p : Params) (x : Bool) : M1 .bool p (.bool x) := by
   intro q b hc hq ht hcan hm hl
   rw [marshal] at hm; simp only [Res.ok.injEq] at hm; subst hm
-  exact ⟨rt_bool q x (rtParams_tag hq), finish_tlv_key q .bool false 1 _ rfl (by decide) hq⟩
+  exact ⟨rt_bool q x (rtParams_tag hq), finish_tlv_key q .bool false 1 _ rfl (by decide) hq rfl⟩
 
 theorem m1_int (w : Nat) (p : Params) (i : Int) : M1 (.int w) p (.int i) := by
   intro q b hc hq ht hcan hm hl
   rw [marshal] at hm; simp only [Res.ok.injEq] at hm; subst hm
   cases hcan with | int hi htr =>
-  refine ⟨?_, finish_tlv_key q (.int w) false 2 _ rfl (by decide) hq⟩
+  refine ⟨?_, finish_tlv_key q (.int w) false 2 _ rfl (by decide) hq rfl⟩
   rw [rt_int w q i hi (rtParams_tag hq), htr]
 
 theorem stringTag_bound (q : Params) (d : Nat) (hq : rtParams q = true) (hd : d < 9223372036854775808) :
@@ -198,7 +246,7 @@ theorem m1_str (d : Nat) (p : Params) (bs : Bytes) : M1 (.str d) p (.str bs) := 
   have hd : d < 9223372036854775808 := by simpa [rtTy] using ht
   have hst := stringTag_bound q d hq hd
   have := finish_len_bound hl
-  exact ⟨rt_str d q bs (rtParams_tag hq) hst (by omega), finish_tlv_key q (.str d) false _ _ rfl hst hq⟩
+  exact ⟨rt_str d q bs (rtParams_tag hq) hst (by omega), finish_tlv_key q (.str d) false _ _ rfl hst hq rfl⟩
 
 theorem m1_ptr (t : Ty) (p : Params) (v : Val) (ih : M1 t p v) : M1 (.ptr t) p v := by
   intro q b hc hq ht hcan hm hl
@@ -206,9 +254,12 @@ theorem m1_ptr (t : Ty) (p : Params) (v : Val) (ih : M1 t p v) : M1 (.ptr t) p v
   have hne := canon_ne_nil hcan'
   have e1 : marshal (.ptr t) q v = marshal t q v := by simp [marshal, hne]
   rw [e1] at hm
-  obtain ⟨h1, cls, tag, c, content, h2, h3, h4, h5⟩ := ih q b hc hq (by simpa [rtTy] using ht) hcan' hm hl
-  refine ⟨by rw [unmarshal]; exact h1, cls, tag, c, content, h2, h3, h4, ?_⟩
-  intro k hk; exact h5 k (by simpa [elemKey, underlying] using hk)
+  obtain ⟨h1, cls, tag, c, content, h2, h3, h4, h5, h6⟩ := ih q b hc hq (by simpa [rtTy] using ht) hcan' hm hl
+  refine ⟨by rw [unmarshal]; exact h1, cls, tag, c, content, h2, h3, h4, ?_, ?_⟩
+  · intro k hk; exact h5 k (by simpa [elemKey, underlying] using hk)
+  · intro hn hch
+    have := h6 hn (by simpa [isChoiceTy, stripPtr] using hch)
+    exact ⟨this.1, by rw [choiceHasTag]; exact this.2⟩
 
 
 
@@ -323,7 +374,7 @@ theorem m1_wrap (t : Ty) (p : Params) (v : Val) (ih : M1 t p v) : M1 (.wrap t) p
   cases hcan with | wrap hcan' =>
   rw [marshal] at hm
   have ht' : rtTy t = true := by simpa [rtTy] using ht
-  obtain ⟨h1, cls, tag, c, content, h2, h3, h4, h5⟩ := ih q b hc hq ht' hcan' hm hl
+  obtain ⟨h1, cls, tag, c, content, h2, h3, h4, h5, _⟩ := ih q b hc hq ht' hcan' hm hl
   subst h2
   have hlen : content.length < 9223372036854775808 := by
     have := tlv_length cls c tag content; simp only [B62] at hl; omega
@@ -336,8 +387,9 @@ theorem m1_wrap (t : Ty) (p : Params) (v : Val) (ih : M1 t p v) : M1 (.wrap t) p
       simp only [Prod.mk.injEq] at this
       simp [this.1, this.2]
   have he := enter_tlv (.wrap t) q cls c tag content h3 h4 hlen htok (needsUnwrap_off_false _ (rtParams_nx hq))
-  refine ⟨by rw [unmarshal]; simp only [he]; exact h1, cls, tag, c, content, rfl, h3, h4, ?_⟩
-  intro k hk; exact h5 k (by simpa [elemKey, underlying] using hk)
+  refine ⟨by rw [unmarshal]; simp only [he]; exact h1, cls, tag, c, content, rfl, h3, h4, ?_, ?_⟩
+  · intro k hk; exact h5 k (by simpa [elemKey, underlying] using hk)
+  · intro _ hch; simp [isChoiceTy, stripPtr] at hch
 
 
 theorem seqTag_lt63 (q : Params) : seqTag q < 9223372036854775808 := by unfold seqTag; split <;> decide
@@ -363,7 +415,7 @@ theorem m1_struct (fs : Fields) (p : Params) (vs : Vals) (ih : M3 fs vs) : M1 (.
     have hsplit : splitTLVs content content.length = .ok es := by
       rw [← hflat]; exact splitTLVs_flat es htlv _ (es_length_le es htlv)
     have hns := rtParams_noset hq
-    refine ⟨?_, finish_tlv_key q (.struct fs) true (seqTag q) content rfl (seqTag_lt63 q) hq⟩
+    refine ⟨?_, finish_tlv_key q (.struct fs) true (seqTag q) content rfl (seqTag_lt63 q) hq rfl⟩
     rw [unmarshal]
     simp only [he, ht'.1, if_false, hfrom, hsplit, hns.1, hns.2, Bool.false_eq_true, false_and, hdec]
 
@@ -389,7 +441,7 @@ theorem m1_slice (t : Ty) (p : Params) (vs : Vals) (ih : M2 t { p with tagNumber
       (seqTag_lt63 q) (rtParams_tag hq) (by omega)
     have hsplit : splitTLVs content content.length = .ok es := by
       rw [← hflat]; exact splitTLVs_flat es htlv _ (es_length_le es htlv)
-    refine ⟨?_, finish_tlv_key q (.slice t) true (seqTag q) content rfl (seqTag_lt63 q) hq⟩
+    refine ⟨?_, finish_tlv_key q (.slice t) true (seqTag q) content rfl (seqTag_lt63 q) hq rfl⟩
     rw [unmarshal]
     simp only [he, hfrom, hsplit, hdec]
 
@@ -416,7 +468,7 @@ theorem m2_cons (t : Ty) (p : Params) (v : Val) (vs : Vals) (ih1 : M1 t p v) (ih
       simp only [hma, hmr, Res.ok.injEq] at hm
       subst hm
       simp only [List.length_append] at hl
-      obtain ⟨h1, cls, tag, c', content, h2, h3, h4, _⟩ := ih1 q a hc hq ht hcv hma (by omega)
+      obtain ⟨h1, cls, tag, c', content, h2, h3, h4, _, _⟩ := ih1 q a hc hq ht hcv hma (by omega)
       obtain ⟨es, hflat, htlv, hdec⟩ := ih2 q r hc hq ht hcvs hmr (by omega)
       refine ⟨(cls, tag, a) :: es, by simp [flat, hflat], ?_, ?_⟩
       · intro x hx
@@ -495,7 +547,7 @@ theorem m3_present (p : Params) (t : Ty) (r : Fields) (v : Val) (vs : Vals)
         cases hcan with
         | absent ho h => exact absurd ⟨ho, rfl⟩ h2
         | present hcv h => exact ⟨hcv, h⟩
-      obtain ⟨hu, cls, tag, c', content, hb, hcls, htag, hk⟩ := ih1 p a rfl hp hty hcc.1 hma (by omega)
+      obtain ⟨hu, cls, tag, c', content, hb, hcls, htag, hk, _⟩ := ih1 p a rfl hp hty hcc.1 hma (by omega)
       obtain ⟨es, hflat, htlv, hkeys, hdec⟩ := ih2 rb hrr hcc.2 hmr (by omega)
       obtain ⟨key, hkey'⟩ := Option.isSome_iff_exists.mp hkey
       have hkk : elemKey p t = some (cls, tag) := by rw [hkey', hk key hkey']
@@ -523,23 +575,28 @@ theorem m4_here (p : Params) (t : Ty) (rest : Fields) (v : Val) (rest1 : Vals) (
   simp only [rtAlts, Bool.and_eq_true] at hrt
   obtain ⟨⟨⟨hp, hty⟩, htag⟩, _⟩ := hrt
   cases hca with | here hcv =>
-  obtain ⟨hu, cls, tag, c', content, hb, hcls, htg, hk⟩ := ih p b rfl hp hty hcv hm hl
+  obtain ⟨hu, cls, tag, c', content, hb, hcls, htg, hk, hch⟩ := ih p b rfl hp hty hcv hm hl
+  have hcl : content.length < 9223372036854775808 := by
+    have := tlv_length cls c' tag content
+    rw [← hb] at this; simp only [B62] at hl; omega
+  have e0 : (i : Int) + ((0 : Nat) : Int) + 1 = (i : Int) + 1 := by omega
   cases hpn : p.tagNumber with
-  | none => rw [hpn] at htag; cases htag
+  | none =>
+    rw [hpn] at htag
+    simp only [Bool.and_eq_true] at htag
+    obtain ⟨rfl, hct⟩ := hch hpn htag.1
+    refine ⟨tag, c', content, hb, htg, by simp [altsHaveTag, hpn, hct], hcl, ?_⟩
+    rw [decodeAlt]
+    simp only [altMatches, hpn, hct, if_true, hu, Nat.add_zero]
+    rw [e0]
   | some n =>
     have := hk (2, n) (by simp [elemKey, hpn])
     simp only [Prod.mk.injEq] at this
     obtain ⟨rfl, rfl⟩ := this
-    refine ⟨n, c', content, hb, htg, by simp [tagAbsent, hpn], ?_, ?_⟩
-    · have := tlv_length 2 c' n content
-      rw [← hb] at this; simp only [B62] at hl; omega
-    · rw [decodeAlt]
-      simp only [altMatches, hpn, beq_self_eq_true, if_true, hu, Nat.add_zero]
-      have e0 : (i : Int) + ((0 : Nat) : Int) + 1 = (i : Int) + 1 := by omega
-      rw [e0]
-
-theorem tagAbsent_ne {m tagn : Nat} {r : Fields} (h1 : tagAbsent m r = true) (h2 : tagAbsent tagn r = false) : m ≠ tagn := by
-  intro h; subst h; rw [h1] at h2; cases h2
+    refine ⟨n, c', content, hb, htg, by simp [altsHaveTag, hpn], hcl, ?_⟩
+    rw [decodeAlt]
+    simp only [altMatches, hpn, beq_self_eq_true, if_true, hu, Nat.add_zero]
+    rw [e0]
 
 theorem m4_there (p : Params) (t : Ty) (r : Fields) (v : Val) (vs : Vals) (n : Nat) (ih : M4 r vs n) :
     M4 (.cons p t r) (.cons v vs) (n + 1) := by
@@ -549,19 +606,28 @@ theorem m4_there (p : Params) (t : Ty) (r : Fields) (v : Val) (vs : Vals) (n : N
   obtain ⟨⟨⟨hp, hty⟩, htag⟩, hrr⟩ := hrt
   cases hca with | there hca' =>
   obtain ⟨tagn, c', content, hb, htg, hpres, hcl, hdec⟩ := ih v' all (i + 1) b hrr hca' (by simpa [valAt] using hv) hm hl
-  cases hpn : p.tagNumber with
-  | none => rw [hpn] at htag; cases htag
-  | some m =>
-    rw [hpn] at htag
-    have hne := tagAbsent_ne htag hpres
-    refine ⟨tagn, c', content, hb, htg, by simp [tagAbsent, hpres], hcl, ?_⟩
-    rw [decodeAlt]
-    have : altMatches p t tagn = false := by simp [altMatches, hpn, hne]
-    simp only [this, Bool.false_eq_true, if_false, hdec]
-    have e1 : ((i + 1 : Nat) : Int) + (n : Int) + 1 = (i : Int) + ((n + 1 : Nat) : Int) + 1 := by omega
-    have e2 : i + 1 + n = i + (n + 1) := by omega
-    rw [e1, e2]
-
+  have hnm : altMatches p t tagn = false := by
+    unfold altMatches
+    cases hpn : p.tagNumber with
+    | some m =>
+      rw [hpn] at htag
+      simp only [Bool.not_eq_true'] at htag
+      simp only [beq_eq_false_iff_ne, ne_eq]
+      intro h; subst h; rw [htag] at hpres; cases hpres
+    | none =>
+      rw [hpn] at htag
+      simp only [Bool.and_eq_true, List.all_eq_true, Bool.not_eq_true'] at htag
+      cases hct : choiceHasTag t tagn with
+      | false => rfl
+      | true =>
+        have := htag.2 tagn (choiceHasTag_mem t tagn hct)
+        rw [this] at hpres; cases hpres
+  refine ⟨tagn, c', content, hb, htg, by simp [altsHaveTag, hpres], hcl, ?_⟩
+  rw [decodeAlt]
+  simp only [hnm, Bool.false_eq_true, if_false, hdec]
+  have e1 : ((i + 1 : Nat) : Int) + (n : Int) + 1 = (i : Int) + ((n + 1 : Nat) : Int) + 1 := by omega
+  have e2 : i + 1 + n = i + (n + 1) := by omega
+  rw [e1, e2]
 
 theorem m1_choice (alts : Fields) (p : Params) (present : Int) (vs : Vals)
     (ih : M4 alts vs (present.toNat - 1)) : M1 (.choice alts) p (.choice present vs) := by
@@ -580,17 +646,18 @@ theorem m1_choice (alts : Fields) (p : Params) (present : Int) (vs : Vals)
     cases hqt : q.tagNumber with
     | none =>
       simp only [hqt] at hm
-      obtain ⟨tagn, c', content, hb, htg, _, hcl, hdec⟩ := ih v alts 0 b hra hca hva hm hl
+      obtain ⟨tagn, c', content, hb, htg, hpresent, hcl, hdec⟩ := ih v alts 0 b hra hca hva hm hl
       subst hb
       have htok : tagOk (.choice alts) q ⟨2, c', tagn, content.length, (header 2 c' tagn content.length).length⟩ = true := by
         simp [tagOk, hqt, stripPtr, expectedTag]
       have he := enter_tlv (.choice alts) q 2 c' tagn content (by decide) htg hcl htok (needsUnwrap_off_false _ (rtParams_nx hq))
-      refine ⟨?_, 2, tagn, c', content, rfl, by decide, htg, ?_⟩
+      refine ⟨?_, 2, tagn, c', content, rfl, by decide, htg, ?_, ?_⟩
       · rw [unmarshal]
         simp only [he, hno.2, Bool.false_eq_true, if_false, hqt, hdec, Nat.zero_add]
         have e0 : ((0 : Nat) : Int) + ((present.toNat - 1 : Nat) : Int) + 1 = present := by omega
         rw [e0, ← hvs]
       · intro k hk; simp [elemKey, hqt, underlying, expectedTag] at hk
+      · intro _ _; exact ⟨rfl, by rw [choiceHasTag]; exact hpresent⟩
     | some n =>
       simp only [hqt] at hm
       cases hma : marshalAlt alts vs (present.toNat - 1) with
@@ -618,12 +685,13 @@ theorem m1_choice (alts : Fields) (p : Params) (present : Int) (vs : Vals)
           rw [tlv_length]
           have : inner.length = (header 2 c' tagn content.length).length + content.length := by rw [hb, tlv_length]
           omega
-        refine ⟨?_, 2, n, true, inner, rfl, by decide, hn, ?_⟩
+        refine ⟨?_, 2, n, true, inner, rfl, by decide, hn, ?_, ?_⟩
         · rw [unmarshal]
           simp only [he, hno.2, Bool.false_eq_true, if_false, hqt, hfrom, hpar, hfit, hdec, Nat.zero_add]
           have e0 : ((0 : Nat) : Int) + ((present.toNat - 1 : Nat) : Int) + 1 = present := by omega
           rw [e0, ← hvs]
         · intro k hk; simp [elemKey, hqt] at hk; exact hk.symm
+        · intro hnone; cases hnone
 
 
 set_option maxHeartbeats 1000000 in
